@@ -229,6 +229,14 @@ def run(ctx: Ctx):
     changers = [i for i in alphabet if i["k"] in ("SetEC", "AlarmEnable", "SetAlarm", "UpdateSV")]
     for _ in range(300 if ctx.quick else 3000):
         walks.append([rng.choice(changers) if rng.random() < 0.45 else rng.choice(alphabet) for _ in range(40 if ctx.quick else 60)])
+    # every history of 4 (thorough: 5) enable / disable / set / clear operations on one alarm (reports depend on what was enabled at the
+    # moment of each change, not on what happened before)
+    import itertools
+    for al in ("al1", "al2"):
+        ops = [{"k": "AlarmEnable", "a": al, "en": True}, {"k": "AlarmEnable", "a": al, "en": False},
+               {"k": "SetAlarm", "a": al, "on": True, "rsp": True}, {"k": "SetAlarm", "a": al, "on": False, "rsp": True}]
+        for seq in itertools.product(ops, repeat=4 if ctx.quick else 5):
+            walks.append(list(seq) + [{"k": "ListAlarms", "ids": [al]}])
     jobs = [(b, ch, ctx.seed) for b, ch in enumerate(chunks(list(enumerate(walks, start=1)), 28))]
     recs = [r_ for batch in pmap(run_batch, jobs) for r_ in batch]
     for r_ in [r_ for r_ in recs if r_["outcome"] != "done" or r_.get("errors")][:3]:
@@ -261,7 +269,7 @@ def run(ctx: Ctx):
     c13_clock.check(ctx, wd, pmap)
     ctx.rule = ("histories = random walks of 40 requests over the monitor alphabet (121 requests: id lists incl. unknown/repeated/"
                 "text ids, constants below/at/inside/above bounds, alarm enable/list/set/clear, value updates); thorough: 3000 walks of 60 "
-                "requests; non-trivial = distinct (request, observation) with content; "
+                "requests; every history of 4 (5) enable / disable / set / clear operations on one alarm; non-trivial = distinct (request, observation) with content; "
                 "predefined Clock variable: S1F3 at frozen equipment-clock instants (sub-second parts at and around every digit boundary, 5 dates) x TimeFormat 0/1/2 set through S2F15, each reply decided by ClockJudge")
     ctx.assumptions += ["in the history walks predefined SVs/ECs are masked except AlarmsEnabled / AlarmsSet and EstablishCommunicationsTimeout (Clock / TimeFormat: separate leg); 2 user SVs, "
                         "4 ECs (bounded, unbounded, predefined settings-backed, application-callback-backed), 2 alarms"]
